@@ -26,7 +26,7 @@ from vlib import MachineryError, log
 SUB = "msgtcp"
 BIN = "msgtcp"
 
-PORT_OPS = ["bind_udp", "bind_tcp", "connect_ok", "connect_refused", "connect_noroute", "connect_cancel",
+PORT_OPS = ["bind_udp", "bind_tcp", "connect_ok", "connect_refused", "connect_noroute", "connect_cancel", "connect_hang",
             "accept", "drop", "drop_half", "crash"]
 DNS_OPS = ["lookup", "reverse", "literal", "regex"]
 
@@ -198,6 +198,12 @@ def random_configs(pid, tier, seed):
                      runs=12 if q else 80),
                 dict(mode=mode, nh=2, cap=1, tick=1, lmin=1, lmax=4, conns=2, runs=12 if q else 80),
                 dict(mode=mode, nh=3, cap=3, tick=3, lmin=2, lmax=11, conns=4, runs=8 if q else 60)]
+        if pid == "C02":
+            for c in base:      # scripted slow-reader / fast-writer scenarios after the random runs
+                c["pressure"] = 6 if q else 30
+        else:
+            for c in base:      # scripted shared-listener scenarios (two tasks parked in accept)
+                c["poolruns"] = (4 if q else 20) if c["nh"] > 1 and c["cap"] >= 3 else 0
         return [dict(c, seed=seed * 101 + i, maxconn=c["conns"], ports=[1, 2]) for i, c in enumerate(base)]
     if pid == "C15":
         base = [dict(lo=49152, hi=49156, maxsock=8, ops=40, names=40, runs=6 if q else 30),
@@ -261,6 +267,39 @@ def validate_trace(pid, path, rc, tag, impl=True):
                 f"counted as drift")
             ir.unmatched = ir.unmatched or (0, "evaluation error")
     return pr, ir
+
+
+class DriverAbort(Exception):
+    """The driver process was killed by a panic of the code under test that cannot be caught
+    (a panic inside a destructor aborts the process)."""
+    def __init__(self, info):
+        super().__init__(str(info))
+        self.info = info
+
+
+def drive(args, panics):
+    """Run the driver.  A non-zero exit is a machinery error unless the side file written by the
+    driver's panic hook shows that the last panic came from the code under test: then the process
+    was aborted by that panic (destructor) and the caller reports it as an observation."""
+    import subprocess
+    if os.path.exists(panics):
+        os.remove(panics)
+    p = subprocess.run([os.path.join(vlib.BIN, BIN)] + args + [f"panics={panics}"], stdout=subprocess.PIPE,
+                       stderr=subprocess.STDOUT, text=True, timeout=3600)
+    if p.returncode == 0:
+        return p.stdout
+    last = None
+    if os.path.exists(panics):
+        for l in open(panics).read().splitlines():
+            try:
+                last = json.loads(l)
+            except ValueError:
+                pass
+    if last and "crates/turmoil" in last.get("loc", "") and (p.returncode < 0 or p.returncode == 134):
+        raise DriverAbort(dict(last, returncode=p.returncode))
+    import sys
+    sys.stdout.write(p.stdout[-4000:])
+    raise MachineryError(f"driver {BIN} {' '.join(args)} exited {p.returncode}")
 
 
 def rejected(r):
@@ -427,8 +466,16 @@ def run(pid, tier, seed, replay=None):
         spath = os.path.join(w, f"{name}.summary.json")
         tdir = os.path.join(w, name)
         os.makedirs(tdir, exist_ok=True)
-        out = vlib.run_driver(BIN, [fam["replay"], f"in={bpath}", f"out={spath}", f"traces={tdir}"]
-                              + driver_args(pid, consts, extra))
+        try:
+            out = drive([fam["replay"], f"in={bpath}", f"out={spath}", f"traces={tdir}"]
+                        + driver_args(pid, consts, extra), os.path.join(tdir, "panics.ndjson"))
+        except DriverAbort as a:
+            k = a.info.get("case", -1)
+            log(f"[{pid}] {name}: the code under test aborted the driver while behaviour #{k} was replayed: {a.info}")
+            ck.violation({"kind": "behaviour", "property": pid, "config": name, "consts": jsonable(consts), "extra": extra,
+                          "behaviour": hs[k] if 0 <= k < len(hs) else None, "violated_clause": "NoPanic",
+                          "abort": a.info})
+            continue
         s = json.load(open(spath))
         log(f"[{pid}] {name}: {len(behs)} TLC states -> {len(hs)} behaviours, {out.strip()}")
         ck.traces += s["behaviours"]
@@ -452,7 +499,13 @@ def run(pid, tier, seed, replay=None):
     for i, rc in enumerate(rcs):
         tpath = os.path.join(w, f"random_{i}.ndjson")
         args = [fam["rand"]] + [f"{k}={v}" for k, v in rc.items()]
-        out = vlib.run_driver(BIN, args + [f"out={tpath}"])
+        try:
+            out = drive(args + [f"out={tpath}"], tpath + ".panics")
+        except DriverAbort as a:
+            log(f"[{pid}] random {rc}: the code under test aborted the driver in run {a.info.get('case')}: {a.info}")
+            ck.violation({"kind": "random", "property": pid, "args": args, "cfg": rc, "violated_clause": "NoPanic",
+                          "abort": a.info})
+            continue
         pr, ir = validate_trace(pid, tpath, rc, f"{pid}_rnd{i}")
         ck.add_tlc(pr, f"trace_prop_{i}")
         ck.add_tlc(ir, f"trace_impl_{i}")
@@ -479,6 +532,9 @@ def run(pid, tier, seed, replay=None):
     rc = rcs[0]
     tpath = os.path.join(w, "random_0.ndjson")
     bad = os.path.join(w, "random_0_corrupt.ndjson")
+    if not os.path.exists(tpath) and ck.violations:
+        ck.extra["rule"] = RULE[pid]
+        return ck.finish()          # the driver was aborted by the code under test: already reported
     what = corrupt_trace(pid, tpath, bad, seed)
     if not what:
         raise MachineryError("binding demonstration: nothing to corrupt in the recorded trace")
@@ -663,8 +719,12 @@ def replay_behaviour(ck, pid, rp, w, tag):
     spath = os.path.join(w, f"{tag}.summary.json")
     tdir = os.path.join(w, tag)
     os.makedirs(tdir, exist_ok=True)
-    vlib.run_driver(BIN, [fam["replay"], f"in={bpath}", f"out={spath}", f"traces={tdir}", "keep=1"]
-                    + driver_args(pid, consts, rp.get("extra", {})))
+    try:
+        drive([fam["replay"], f"in={bpath}", f"out={spath}", f"traces={tdir}", "keep=1"]
+              + driver_args(pid, consts, rp.get("extra", {})), os.path.join(tdir, "panics.ndjson"))
+    except DriverAbort as a:
+        ck.violation(dict(rp, violated_clause="NoPanic", abort=a.info))
+        return False
     s = json.load(open(spath))
     ck.traces += 1
     ck.evaluations += 1
@@ -695,7 +755,11 @@ def run_corpus(ck, pid, w):
 
 def replay_random(ck, pid, rp, w, tag):
     tpath = os.path.join(w, f"{tag}.ndjson")
-    vlib.run_driver(BIN, rp["args"] + [f"out={tpath}"])
+    try:
+        drive(rp["args"] + [f"out={tpath}"], tpath + ".panics")
+    except DriverAbort as a:
+        ck.violation(dict(rp, violated_clause="NoPanic", abort=a.info))
+        return False
     rc = rp["cfg"]
     pr, _ = validate_trace(pid, tpath, rc, f"{pid}_{tag}", impl=False)
     ck.add_tlc(pr, f"trace_{tag}")
